@@ -352,10 +352,17 @@ def r_patch_of_nothing(i):
 def r_patch_kind_mismatch(i):
     kind = i.g.choice(['struct_as_union', 'union_as_struct', 'open_as_closed', 'closed_as_open'])
     if kind == 'struct_as_union':
-        s, info = i.a_struct(own=True)
+        # an existing patch of the same type would hide this one (second patch replaces the first,
+        # reported by C02), so only unpatched types are used
+        s, info = i.a_struct(lambda n, d: not d.get('patch'), own=True)
         i.raw([(0, 'patch union %s' % s), (1, 'zqt')])
     elif kind == 'union_as_struct':
-        u, _ = i.a_union(own=True)
+        cands = [(n, d) for n, d in i.visible(('union',)) if n == i.ns['name'] and not d.get('patch')]
+        if cands:
+            u = i.g.choice(cands)[1]['name']
+        else:
+            u = i.fresh()
+            i.raw([(0, 'union %s' % u), (1, 'zt1')])
         i.raw([(0, 'patch struct %s' % u), (1, 'zqf String?')])
     elif kind == 'open_as_closed':
         name = i.fresh()
